@@ -1,10 +1,52 @@
-(* C11 — property theorems (statements only; proofs live in Acme.C11.Proofs). *)
-From Coq Require Import ZArith List.
+(* C11 — property theorems (statements only; proofs live in Acme.C11.{Proofs,Strings,RoundTrip}).
+   Model: Acme.C10.{Export,Import,BusModel}; `export_import b = import (text_roundtrip (export b))`.
+   Partial: the whole-bus theorem `export_import_partial` is proved for PLAIN buses (standard signals,
+   no descriptions / attributes / timing): nodes in order, messages by CAN-ID with name, size, byte
+   order, sender, receivers, signals with name, start bit in both byte orders, size, signedness, factor,
+   offset, minimum, maximum, unit, names with blanks.  The full statement is
+   Acme.C11.RoundTrip.export_import_full_statement (well_formed, names_ok spelled out there).
+   The other ingredients are proved in isolation: the four attribute types (+hex) and their defaults
+   through the write/parse effect, SG_MUL_VAL_ ranges, the start-bit conversion, the sanitiser. *)
+From Coq Require Import String ZArith List.
 From Acme.C10 Require Import DbcDoc BusModel Import Export Bits.
-From Acme.C11 Require Import Proofs.
+From Acme.C11 Require Import Strings Proofs RoundTrip.
+Import ListNotations.
 Open Scope Z_scope.
 
 Theorem start_bit_inverse :
   forall o p, 0 <= p -> pos_of_dbc o (dbc_of_pos o p) = p /\ dbc_of_pos o (pos_of_dbc o p) = p.
 Proof. exact Proofs.start_bit_inverse. Qed.
 Print Assumptions start_bit_inverse.
+
+(* export -> write/parse -> import is the identity of the projection on plain buses *)
+Theorem export_import_partial : forall b, plain_bus b ->
+  exists b', export_import b = Ok b' /\ proj_bus b' = proj_bus b.
+Proof. exact RoundTrip.export_import_plain_thm. Qed.
+Print Assumptions export_import_partial.
+
+(* attribute definitions of the four types (and hex format), defaults included *)
+Theorem attr_def_roundtrip : forall k name d, wf_def d ->
+  let '(da, dd) := export_attribute k name d in
+  import_attr_def da (reparse_def dd) = Ok d.
+Proof. exact Proofs.attr_def_roundtrip. Qed.
+Print Assumptions attr_def_roundtrip.
+
+(* attribute values of the four types (and hex format) *)
+Theorem attr_value_roundtrip : forall k node msg sig a acc, wf_asg a ->
+  exists av, ea_attrvals (export_assignment k node msg sig a acc) = ea_attrvals acc ++ [av] /\
+             av_name av = clear_spaces (aa_name a) /\
+             attr_value (aa_def a) (reparse_val av) = Ok (aa_val a).
+Proof. exact Proofs.attr_value_roundtrip. Qed.
+Print Assumptions attr_value_roundtrip.
+
+(* group membership written as SG_MUL_VAL_ ranges is read back exactly *)
+Theorem mux_ranges_roundtrip : forall gcount g,
+  ascending (-1) g -> (forall x, In x g -> x < gcount) -> gcount <= 2 ^ 32 ->
+  expand_ranges gcount (ranges_of g) = Ok g.
+Proof. exact Proofs.mux_ranges_roundtrip. Qed.
+Print Assumptions mux_ranges_roundtrip.
+
+(* the exporter's name sanitising is idempotent (names are compared after it) *)
+Theorem clear_spaces_idempotent : forall s, clear_spaces (clear_spaces s) = clear_spaces s.
+Proof. exact Strings.clear_spaces_idem. Qed.
+Print Assumptions clear_spaces_idempotent.
